@@ -45,8 +45,20 @@ func (c04) Gen(seed uint64, run int, tier string) *Plan {
 	n := 6 + r.Intn(20)
 	if big {
 		// sequences whose bodies sum to just below / at / above the limit, and oversize singles
-		shape := r.Intn(4)
+		shape := r.Intn(5)
 		switch shape {
+		case 4:
+			// two check-ins of one agent overlap while small tasks sit in front of many large ones:
+			// the handler of the first one gets no CPU for a while at some point (fault: stalled
+			// goroutine), the second one is served in full meanwhile
+			for i := 0; i < 4; i++ {
+				p.Actions = append(p.Actions, Action{Kind: "task", B: 0, C: 0, A: 0})
+			}
+			for i := 0; i < 8; i++ {
+				p.Actions = append(p.Actions, Action{Kind: "upload", B: 0, D: 8*1024*1024 - 64 + r.Intn(128)})
+			}
+			p.Actions = append(p.Actions, Action{Kind: "stale-checkins", B: 0, D: r.Intn(1 << 20)})
+			return p
 		case 0: // three 10 MiB files: third chunk reaches the limit
 			for i := 0; i < 3; i++ {
 				p.Actions = append(p.Actions, Action{Kind: "upload", B: 0, D: 10*1024*1024 - 64 + r.Intn(128)})
@@ -235,6 +247,41 @@ func (c04) Exec(p *Plan, dir string) *Result {
 			}
 			c, ts := w.Checkin(d)
 			st.checkBatch(di, c, ts, true)
+		case "stale-checkins":
+			di := a.B % len(w.Demons)
+			d := w.Demons[di]
+			c1 := w.Send(world.AgentReq{Port: d.Port, URI: d.URI, Headers: d.Hdrs, Body: d.Frame(nil), Peer: d.Peer})
+			// ... right after it has let go of the agent's queue lock for the first or second time
+			// (or, failing that, somewhere inside)
+			if !w.Sim.RunToSite("(*Agent).GetQueuedJobs", 1, 20000) {
+				w.Sim.RunSteps(uint64(60 + a.D%900))
+			} else {
+				res.Probe("stalled-after-queue-lock-release")
+			}
+			stalled := w.Sim.StallRunnable()
+			c2 := w.Send(world.AgentReq{Port: d.Port, URI: d.URI, Headers: d.Hdrs, Body: d.Frame(nil), Peer: d.Peer})
+			w.Sim.Settle()
+			w.Sim.Release(stalled)
+			w.Sim.Settle()
+			res.Probe("overlapping-checkins-with-stalled-handler")
+			first, second := c1, c2
+			if c2.Done && c1.Done && c2.EndStep < c1.EndStep {
+				first, second = c2, c1
+			}
+			for _, c := range []*simrt.HTTPCall{first, second} {
+				st.checkBatch(di, c, w.Absorb(d, c), false)
+				if len(res.Violations) > 0 {
+					break
+				}
+			}
+			st.fifo[di] = nil
+			for k := 0; k < 50 && len(res.Violations) == 0; k++ {
+				c, ts := w.Checkin(d)
+				st.checkBatch(di, c, ts, false)
+				if len(ts) == 0 {
+					break
+				}
+			}
 		case "par":
 			n := a.A
 			if i+n >= len(p.Actions) {
